@@ -1,0 +1,19 @@
+//go:build verif
+
+package emulate
+
+import (
+	"mltwist/internal/consoleui"
+	"mltwist/internal/state"
+)
+
+// VerifSuidState returns the emulation state of an emulator mode created by
+// New; ok is false if m is no emulator mode (verification harness only, build
+// tag verif).
+func VerifSuidState(m consoleui.Mode) (st *state.State, ok bool) {
+	e, ok := m.(*mode)
+	if !ok {
+		return nil, false
+	}
+	return e.emul.State, true
+}
